@@ -158,7 +158,12 @@ def run_collection(cid, docs, allow, strict, via, seed, tracer, tmproot):
                 if via == "strings":
                     mc = MosCollection.from_strings(texts, allow_incomplete=allow)
                 elif via == "files":
-                    tmpdir = tempfile.mkdtemp(prefix="coll-", dir=tmproot)
+                    # the same file names are used for every collection this process builds (a re-export to the same
+                    # paths): nothing may be remembered about a path from an earlier collection
+                    tmpdir = os.path.join(tmproot, "p%d" % os.getpid())
+                    if os.path.isdir(tmpdir):
+                        shutil.rmtree(tmpdir)
+                    os.makedirs(tmpdir)
                     paths = []
                     for i, t in enumerate(texts):
                         p = os.path.join(tmpdir, "f%02d.mos.xml" % i)
